@@ -1047,6 +1047,10 @@ func (obj *Package) DefLambda(name string, lam *Lambda, fc func(args List) Objec
 		if vv := obj.vars[name]; vv != nil && Unbound == vv.Val && vv.Export && vv.Pkg == obj {
 			fi.Export = true
 			delete(obj.vars, name)
+			// The placeholder is gone, the packages that inherited it
+			// must not keep it either.
+			vv.Export = false
+			obj.withdrawVar(name, vv, false)
 			for _, u := range obj.Users {
 				u.mu.Lock()
 				if xf := u.funcs[name]; xf == nil {
